@@ -570,6 +570,10 @@ class CSSStyleSheet(cssutils.stylesheets.StyleSheet):
 
             rule._parentStyleSheet = None  # detach
             del self._cssRules[index]  # delete from StyleSheet
+            if rule.type in (rule.IMPORT_RULE, rule.VARIABLES_RULE):
+                # the variables the rule has brought along leave with it
+                self._variables = CSSVariablesDeclaration()
+                self._updateVariables()
 
     def insertRule(self, rule, index=None, inOrder=False, _clean=True):  # noqa: C901
         """
